@@ -46,6 +46,10 @@ func C06(c *Ctx) {
 	}
 	c.runKnownF20()
 	c.ModelCheck(cfg)
+	// the options must not change results of left-recursive grammars either (value and consumed
+	// prefix; error lists under Memoize are subject to known finding F06 and compared in C08)
+	c.lrPass(6, c.N(30, 300), CmpVal|CmpEnd|CmpOK, []OptSet{{Name: "default"}, {Name: "memoize", Memo: true}, {Name: "memoize+stats", Memo: true, Stats: true}, {Name: "debug", Debug: true}}, false,
+		func(m *ref.Result) bool { return m.LRGrowths >= 1 })
 	c.c06Long()
 }
 
@@ -89,7 +93,7 @@ func (c *Ctx) c06Long() {
 		{Name: "Expr", Expr: gast.C(act(gast.S(gast.Lab("a", gast.Ref("Term")), gast.L("+"), gast.Lab("b", gast.Ref("Expr"))), 1), act(gast.S(gast.Lab("a", gast.Ref("Term")), gast.L("-"), gast.Lab("b", gast.Ref("Expr"))), 2), gast.Ref("Term"))},
 		{Name: "Term", Expr: gast.C(act(gast.S(gast.L("("), gast.Lab("a", gast.Ref("Expr")), gast.L(")")), 3), act(gast.Plus(gast.Cl(gast.Chars("01"))), 4))},
 	}}
-	gs := []*gast.Grammar{arith, c06Strata()[3], c06Strata()[4]}
+	gs := []*gast.Grammar{arith, c06Strata()[4], c06Strata()[5]}
 	p := pureProfile()
 	p.PBackRef = 60
 	for i := 0; i < c.N(10, 80); i++ {
@@ -180,6 +184,9 @@ func c06Strata() []*gast.Grammar {
 		// a code predicate whose verdict depends on a label, reached at one offset with two different label values
 		mk(r("S", gast.C(gast.S(gast.Ref("A"), gast.L("z")), gast.S(gast.L("x"), gast.Ref("A")), gast.Star(gast.Dot()))),
 			r("A", act(gast.S(gast.Lab("a", gast.Star(gast.L("x"))), gast.AndC(7, mon.Spec{B: 4}), gast.Lab("b", gast.L("y"))), 1))),
+		// the first label of a scope after an unlabelled variable-length prefix
+		mk(r("S", gast.C(gast.S(gast.Lab("v", gast.Ref("A")), gast.L("z")), gast.S(gast.L("x"), gast.Lab("v", gast.Ref("A"))))),
+			r("A", act(gast.S(gast.Star(gast.L("x")), gast.Lab("b", gast.L("y"))), 1))),
 		// labelled item after a variable-length prefix, rule reached from two alternatives
 		mk(r("S", gast.C(gast.S(gast.Ref("A"), gast.L("z")), gast.S(gast.L("x"), gast.Ref("A")))),
 			r("A", act(gast.S(gast.Lab("a", gast.Star(gast.L("x"))), gast.Lab("b", gast.L("y"))), 1))),
